@@ -121,9 +121,14 @@ def replaceAll (rs : List (Str × Str)) (s : Str) : Str :=
 
 /-- `Tokenize::normalize` -/
 def normalize (s : Str) : Str :=
+  -- line ending sanity, continuation markers and comments (as `split_into_steps` does for pipelines)
+  let s := trim s
+  let s := replace (S "\r\n") (S "\n") s
+  let s := replace (S "\r") (S "\n") s
+  let s := replace (S "\n:") (S "\n") s
+  let s := join (S "\n") ((lines s).map fun line => (splitOn '#' line).headD [])
   let s := trim s
   let s := trimMatches ':' s
-  let s := replace (S "\n:") (S "\n") s
   let s := join (S " ") (splitWs s)
   let s := replaceAll glue s
   let s := replace (S ">") (S "|omit_inv ") s
